@@ -76,8 +76,9 @@ class TraceJob:
     """drive one family in one build configuration (sharded), validate every shard with TLC"""
 
     def __init__(self, cfg, family, shards=16, args=None, spec='TraceOps', env=None, label=None, timeout=900, xmx='3g', threads=0, tsan=False,
-                 expect_races=False):
+                 expect_races=False, binding_only=False):
         self.cfg, self.family, self.shards = cfg, family, shards
+        self.binding_only = binding_only  # configuration outside the properties' quantification: only model conformance (drift) is read off
         self.args = args or []
         self.spec = spec
         self.env = env or {}
